@@ -93,7 +93,19 @@ Theorem C03_checker_complete : forall P (fs : list (frag NumZ)) (lws : list Z) r
   optimal_b P fs lws rs = true.
 Proof. exact optimal_b_complete. Qed.
 
+(* where the integer model is the floating-point computation: default penalties, widths of
+   at most 2^16 columns, at most 4096 fragments: every stored cost is an integer below
+   2^53, the range on which double arithmetic on integers is exact *)
+From TW Require Import Smawk CostBound ExactDomain.
+Theorem C03_integer_model_exact_range : forall eqT (fs : list (frag NumZ)) (lws : list Z),
+  Forall (frag_ok (2^16)) fs -> Forall (fun lw => (0 <= lw <= 2^16)%Z) lws ->
+  (length fs <= 4096)%nat ->
+  forall minima, smawk_minima NumZ eqT default_penalties fs lws = Some minima ->
+  forall j i c, nth_error minima j = Some (i, c) -> (0 <= c < 2^53)%Z.
+Proof. exact exact_domain. Qed.
+
 Print Assumptions C03_lower_bound.
+Print Assumptions C03_integer_model_exact_range.
 Print Assumptions C03_checker_sound.
 Print Assumptions C03_checker_complete.
 Print Assumptions C03_optimal_given_column_minima.
